@@ -111,13 +111,12 @@ Fixpoint distinct_ranks (t : list (N * Z)) (l : list N) : bool :=
   | v :: l' => forallb (fun w => negb (Z.eqb (lookup1 t 0%Z v) (lookup1 t 0%Z w))) l' && distinct_ranks t l'
   end.
 
-(* D: Compare is the preorder the ranks describe and no two different version strings (the required
-   one included) compare equal *)
+(* D: Compare is the preorder the ranks describe, and the suggested version is not a differently written
+   version that compares equal to the current one ("1.0" -> "1.0.0") *)
 Definition scase_dom (c : scase) : bool :=
-  let ps := filter (memN (s_parses c)) (s_versions c) in
-  s_consistent c && distinct_ranks (s_rank c) ps &&
-  match s_ckind c, s_cur c with
-  | 1%N, Some cur => memN ps cur || forallb (fun w => negb (Z.eqb (lookup1 (s_rank c) 0%Z cur) (lookup1 (s_rank c) 0%Z w))) ps
+  s_consistent c &&
+  match s_observed c, spec_current c with
+  | SNew v, Some cur => N.eqb v cur || negb (Z.eqb (lookup1 (s_rank c) 0%Z v) (lookup1 (s_rank c) 0%Z cur))
   | _, _ => true
   end.
 
@@ -152,8 +151,7 @@ Definition sugg_eqb (a b : sugg N) : bool :=
   end.
 
 Record qcase := { q_cfg : config; q_reqs : list (sreq N);
-  q_listed : bool;   (* D: for every declared package, no two different version strings (the declared one
-                        included) compare equal *)
+  q_listed : bool;   (* D: Compare is a total preorder on the versions of every declared package *)
   q_judged : list (N * comparison * diff);
                      (* per returned update whose declared requirement stands for a known version cur:
                         package, Compare(cur, VersionTo), Difference(VersionTo, cur) *)
@@ -172,7 +170,9 @@ Definition qcase_none_ok (c : qcase) : bool :=
 Definition qcase_prop_ok (c : qcase) : bool :=
   match q_observed c with
   | SuggOk ups => qcase_none_ok c &&
-                  forallb (fun j => let '(p, cm, d) := j in is_lt cm && allows (config_get (q_cfg c) p) d) (q_judged c)
+                  (* (VersionFrom and VersionTo are different strings: Eq means differently written twins) *)
+                  forallb (fun j => let '(p, cm, d) := j in
+                                    match cm with Eq => true | _ => is_lt cm && allows (config_get (q_cfg c) p) d end) (q_judged c)
   | SuggErr => true
   | SuggPanic => false
   end.
@@ -191,10 +191,9 @@ Record ucase := {
   u_cmp : comparison;        (* Compare(version without the update, version with it) *)
   u_dif : diff;              (* Difference of the two *)
   u_op : N;                  (* relax: 0 = "~", 1 = "^", 2 = other *)
-  u_listed : bool;           (* Update and override: no two different version strings of the package (the
-                                declared one included) compare equal *)
-  u_honoured : bool;         (* override, update: the package resolves to what the old / new requirement asks for;
-                                relax: the old requirement resolves to its highest matching version *)
+  u_listed : bool;           (* the two versions are not differently written versions that compare equal
+                                (2.0.2.Final -> 2.0.2): the only way equal-in-order versions escape the claim *)
+  u_honoured : bool;         (* override, update: the package resolves to what the old / new requirement asks for *)
   u_indep : bool;            (* the other updates of the run leave this package where the original manifest has it *)
   u_consistent : bool
 }.
@@ -206,7 +205,7 @@ Definition ucase_dom (c : ucase) : bool :=
   u_consistent c &&
   match u_strategy c with
   | 0%N => u_listed c && u_honoured c
-  | 1%N => valid_level (u_level c) && u_honoured c
+  | 1%N => valid_level (u_level c)
   | _ => u_listed c && u_honoured c && u_indep c
   end.
 (* when another update of the same run already lifts the package (through a hard requirement of the
@@ -232,6 +231,8 @@ Record rcase := {
   r_dif : list (N * N * option diff);    (* (a, b) -> semver.NPM.Difference(a, b) for a before b *)
   r_rank : list (N * Z);
   r_consistent : bool;
+  r_base : option N;                     (* last of cl.MatchingVersions(req) when it sits below the highest match *)
+  r_resolved : option N;                 (* specification side: the version the requirement resolves to *)
   r_observed : option (rop * N)          (* Some (op, v): req.Version = op ++ v, true;  None: (req, false) *)
 }.
 
@@ -239,7 +240,7 @@ Definition r_difo (c : rcase) : N -> N -> option diff := lookup2 (r_dif c) None.
 
 Definition rcase_model (c : rcase) : option (rop * N) :=
   relax_npm N (memN (r_parses c)) (memN (r_matches c)) (memN (r_pre c)) (r_difo c)
-            (r_level c) (r_cok c) (r_verr c) (r_vers c).
+            (r_level c) (r_cok c) (r_verr c) (r_base c) (r_vers c).
 
 Definition ropv_eqb (a b : option (rop * N)) : bool :=
   match a, b with
@@ -250,16 +251,23 @@ Definition ropv_eqb (a b : option (rop * N)) : bool :=
 
 Definition rcase_model_ok (c : rcase) : bool := ropv_eqb (rcase_model c) (r_observed c).
 
+(* the version the upgrade is judged from: what the old requirement resolves to *)
+Definition r_from (c : rcase) : option N :=
+  match r_resolved c with
+  | Some b => Some b
+  | None => highest_match N (memN (r_parses c)) (memN (r_matches c)) (r_vers c)
+  end.
+
 (* the property on the observed result, in two parts *)
 Definition rcase_prop_core (c : rcase) : bool :=
   match r_observed c with
   | None => true
   | Some (op, best) =>
       negb (level_eqb (r_level c) LNone) &&
-      match highest_match N (memN (r_parses c)) (memN (r_matches c)) (r_vers c) with
+      match r_from c with
       | None => false
-      | Some lst => is_lt (rank_cmp (r_rank c) lst best) &&
-                    allows (r_level c) (dif_or_other N (r_difo c) lst best)
+      | Some from => is_lt (rank_cmp (r_rank c) from best) &&
+                     allows (r_level c) (dif_or_other N (r_difo c) from best)
       end
   end.
 
@@ -267,11 +275,11 @@ Definition rcase_prop_range (c : rcase) : bool :=
   match r_observed c with
   | None => true
   | Some (op, best) =>
-      match highest_match N (memN (r_parses c)) (memN (r_matches c)) (r_vers c) with
+      match r_from c with
       | None => false
-      | Some lst =>
+      | Some from =>
           forallb (fun v => negb (range_admits N (r_difo c) (rank_cmp (r_rank c)) op best v) ||
-                            allows (r_level c) (dif_or_other N (r_difo c) lst v)) (r_vers c)
+                            allows (r_level c) (dif_or_other N (r_difo c) from v)) (r_vers c)
       end
   end.
 
@@ -281,7 +289,11 @@ Definition rcase_prop_ok (c : rcase) : bool := rcase_prop_core c && rcase_prop_r
    classifies every pair (never Same / Other / an error) *)
 Definition rcase_dom_core (c : rcase) : bool :=
   r_consistent c && forallb (memN (r_parses c)) (r_vers c) && distinct_ranks (r_rank c) (r_vers c) &&
-  forallb (fun e => match snd e with Some d => classified d | None => false end) (r_dif c).
+  forallb (fun e => match snd e with Some d => classified d | None => false end) (r_dif c) &&
+  match r_resolved c, highest_match N (memN (r_parses c)) (memN (r_matches c)) (r_vers c) with
+  | Some b, Some lst => negb (is_gt (rank_cmp (r_rank c) b lst))
+  | _, _ => true
+  end.
 
 Definition rcase_dom (c : rcase) : bool := rcase_dom_core c && valid_level (r_level c).
 
